@@ -23,6 +23,7 @@ func init() {
 			ruleC18T6(r)
 			ruleC18T7(r, le)
 			ruleC18T8(r)
+			ruleNoSwallowedErrors(r, "T9", 5, true, "/transport/reconnect")
 		},
 	})
 }
